@@ -73,12 +73,17 @@ func c09Spec(c *sim.Ctx) *ref.Spec {
 		case 0: // message node that stores part of the message
 			n.HasBr = true
 			n.Type = "message"
+			if c.Chance(1, 3, "ineqbranch") {
+				// an inequality against a bound that an earlier action computed
+				iv := []string{"?<n", "?>=n", "?!=n"}[c.Intn(3, "ineqvar")]
+				n.Branches = append(n.Branches, &ref.Branch{HasPat: true, Pattern: map[string]interface{}{"a": iv}, Target: tgt()})
+			}
 			n.Branches = append(n.Branches, &ref.Branch{HasPat: true, Pattern: map[string]interface{}{"a": "?v"}, Target: tgt()})
 			n.Branches = append(n.Branches, &ref.Branch{Target: tgt()})
 		case 1, 2: // action node producing values, then bindings branching that inspects them
 			a := &ref.Action{}
 			for i := 0; i < 1+c.Intn(3, "c09ops"); i++ {
-				switch c.Intn(8, "c09op") {
+				switch c.Intn(10, "c09op") {
 				case 0, 1, 2, 3:
 					a.Ops = append(a.Ops, ref.Op{Kind: "set", K: bsKeys[c.Intn(3, "c09k")], V: val()})
 				case 4:
@@ -89,6 +94,11 @@ func c09Spec(c *sim.Ctx) *ref.Spec {
 					a.Ops = append(a.Ops, ref.Op{Kind: "throw"})
 				case 7:
 					a.Ops = append(a.Ops, ref.Op{Kind: "del", K: "?q"})
+				case 8, 9:
+					// a numeric bound for an inequality variable (integer or fraction)
+					iv := []string{"?<n", "?>=n", "?!=n"}[c.Intn(3, "ineqvar")]
+					a.Ops = append(a.Ops, ref.Op{Kind: "set", K: iv, V: []interface{}{1.0, 2.0, 1.5}[c.Intn(3, "bound")]})
+					a.Ops = append(a.Ops, ref.Op{Kind: "del", K: "?n"})
 				}
 			}
 			n.Action = a
@@ -107,6 +117,25 @@ func c09Spec(c *sim.Ctx) *ref.Spec {
 	s.Nodes["n0"] = &ref.Node{HasBr: true, Type: "message", Branches: []*ref.Branch{
 		{HasPat: true, Pattern: map[string]interface{}{"a": "?v"}, Target: names[1%nn]}, {Target: names[1%nn]}}}
 	return s
+}
+
+// c09IneqSpec: a deadline-style machine - an action computes a numeric bound,
+// a later message is compared with it through an inequality variable.
+func c09IneqSpec(c *sim.Ctx) *ref.Spec {
+	iv := []string{"?<n", "?<=n", "?>n", "?>=n", "?!=n"}[c.Intn(5, "ineqvar")]
+	bound := []interface{}{1.0, 2.0, 1.5, 0.0}[c.Intn(4, "bound")]
+	arm := &ref.Action{Ops: []ref.Op{{Kind: "set", K: iv, V: bound}, {Kind: "del", K: "?v"}, {Kind: "del", K: "?n"}}}
+	if c.Bool("armfromvalue") {
+		arm.Ops[0] = ref.Op{Kind: "setfrom", K: iv, K2: "?v"}
+		arm.Ops = append([]ref.Op{{Kind: "set", K: iv, V: bound}}, arm.Ops...)
+	}
+	fire := &ref.Action{Ops: []ref.Op{{Kind: "emitb", K: "?n"}, {Kind: "del", K: "?n"}}}
+	return &ref.Spec{Nodes: map[string]*ref.Node{
+		"n0":    {HasBr: true, Type: "message", Branches: []*ref.Branch{{HasPat: true, Pattern: map[string]interface{}{"a": "?v"}, Target: "arm"}, {Target: "n0"}}},
+		"arm":   {Action: arm, HasBr: true, Type: "bindings", Branches: []*ref.Branch{{Target: "armed"}}},
+		"armed": {HasBr: true, Type: "message", Branches: []*ref.Branch{{HasPat: true, Pattern: map[string]interface{}{"a": iv}, Target: "fire"}, {HasPat: true, Pattern: map[string]interface{}{"b": "?"}, Target: "n0"}}},
+		"fire":  {Action: fire, HasBr: true, Type: "bindings", Branches: []*ref.Branch{{Target: "armed"}}},
+	}}
 }
 
 func reload(st *core.State) (*core.State, error) {
@@ -151,9 +180,12 @@ func runC09(c *sim.Ctx, t *testing.T) {
 	sim.Install(c)
 	defer sim.Uninstall()
 	var gs *ref.Spec
-	if c.Chance(1, 3, "generic") {
+	switch c.Intn(6, "speckind") {
+	case 0, 1:
 		gs = genSpec(c, genCfg{failOps: true, permanents: true, guards: true, loops: true, maxNodes: 5})
-	} else {
+	case 2:
+		gs = c09IneqSpec(c)
+	default:
 		gs = c09Spec(c)
 	}
 	spec, err := compile(gs)
